@@ -1185,6 +1185,7 @@ func GenC06(rng *rand.Rand, thorough bool, emit func(*Sx)) {
 		f.add(L(A("must-mail"), XS("sized@ok")))
 		emit(RunConv(f.caseOf("C06", segStream(rng, f.out, f.cuts, 0, rawEOF))))
 	}
+	genC06Retry(rng, thorough, emit) // read failures inside the message, a backend that reads on (retry.go)
 }
 
 // GenC07: every cut point of DATA and BDAT conversations; abandoned transfers.
